@@ -16,7 +16,7 @@ const (
 	vkInDir       // "d/g<i>"
 	vkDeep        // "d/e/h<i>"
 	vkDeepDir     // "d/e/m<i>/": an explicit directory entry two levels down
-	vkDeflated    // "z<i>": 48 highly compressible bytes, stored deflated
+	vkDeflated    // "z<i>": 600 highly compressible bytes (more than the whole archive), stored deflated
 	vkNested      // "n<i>.zip" holding an archive of its own
 	vkFakeZip     // "k<i>.zip" that is not an archive
 	vkKinds
@@ -73,7 +73,7 @@ func vGenEntries(tag string, maxEntries int, allowNested bool, recursive bool, d
 			}
 			continue
 		case vkDeflated:
-			name, depth, size = "z"+idx, 0, 48
+			name, depth, size = "z"+idx, 0, 600
 		case vkInDir:
 			name, depth = "d/g"+idx, 1
 		case vkDeep:
@@ -117,6 +117,8 @@ func vGenEntries(tag string, maxEntries int, allowNested bool, recursive bool, d
 			e.deflate = true
 			if i == 0 && allowNested && verif.Bool(tag+"hugeLie") {
 				// a zip64 header declaring 2^63 bytes: negative once taken as an int64, i.e. "fewer than stored"
+				// (more data than one read of the copy loop delivers: 32 KiB)
+				e.content = make([]byte, 40000)
 				e.declaredHuge = true
 				st.lying = true
 				st.lyingShort = true
@@ -239,3 +241,4 @@ func VerifC03_NoLimits() {
 	verif.Assert("no_limits_no_refusal", err == nil)
 	verif.Observe("n", len(list))
 }
+
